@@ -19,7 +19,7 @@ class Stuck(Exception):
 
 
 class Env:
-    __slots__ = ('vars', 'stacks', 'locals', 'pushback', 'events', 'ctl', 'viol')
+    __slots__ = ('vars', 'stacks', 'locals', 'pushback', 'events', 'ctl', 'viol', 'texts')
 
     def __init__(self, vars_, stacks):
         self.vars = dict(vars_)          # tracked scalar variables: name -> int
@@ -28,6 +28,7 @@ class Env:
         self.pushback = 0
         self.events = []
         self.viol = []
+        self.texts = {}                  # text members followed concretely (run_text only): name -> tuple of bytes | None (unknown)
 
     def copy(self):
         e = Env(self.vars, self.stacks)
@@ -35,9 +36,12 @@ class Env:
         e.pushback = self.pushback
         e.events = list(self.events)
         e.viol = list(self.viol)
+        e.texts = dict(self.texts)
         return e
 
     def key(self):
+        if self.texts:
+            return (tuple(sorted(self.vars.items())), tuple(sorted(self.stacks.items())), tuple(sorted(self.texts.items(), key=lambda kv: kv[0])))
         return (tuple(sorted(self.vars.items())), tuple(sorted(self.stacks.items())))
 
 
@@ -67,6 +71,37 @@ class Machine:
         self.redispatch = {}
         self.configs = set()
         self.cursor_reads = []
+        self._auto_inline()
+
+    def _auto_inline(self):
+        """helpers of the parser's own class that touch the tracked state (assign a tracked member, push / pop a tracked stack, or
+        call such a helper) are interpreted at their call sites like the functions listed under 'inline': an extracted
+        `end_container()` must not hide its pop from the machine"""
+        cls = self.f.get('cls')
+        if not cls:
+            return
+        inline = set(self.d.get('inline', ()))
+        tracked = set(n for n, v in self.d.get('tracked', {}).items() if v[0] == 'mem') | set(self.d.get('stacks', {}))
+        skip = set(self.d.get('intrinsics', {})) | set(self.d.get('pure', ()))
+        cands = [g for g in self.prog.functions if g.get('cls') == cls and g.get('body') and g is not self.f and g.get('n') not in skip]
+        changed = True
+        while changed:
+            changed = False
+            for g in cands:
+                if g['n'] in inline:
+                    continue
+                hit = False
+                for e in fn_exprs(g):
+                    if e.get('k') == 'mem' and e.get('f') in tracked and strip_lv(e.get('b') or {'k': 'this'}).get('k') == 'this':
+                        hit = True
+                        break
+                    if e.get('k') == 'call' and (e.get('pq') or e.get('fn') or '').split('::')[-1] in inline and (e.get('cls') == cls or e.get('obj') is None):
+                        hit = True
+                        break
+                if hit:
+                    inline.add(g['n'])
+                    changed = True
+        self.d['inline'] = inline
 
     # ------------------------------------------------------------ setup
     def _find_loop(self):
@@ -262,12 +297,13 @@ class Machine:
                     return U
                 if tgt.get('k') == 'var' and tgt.get('id') in env.locals and env.locals[tgt['id']] is not U:
                     old = env.locals[tgt['id']]
-                    env.locals[tgt['id']] = old + (1 if '++' in op else -1)
+                    d_ = 1 if '++' in op else -1
+                    env.locals[tgt['id']] = ('ptr', old[1], old[2] + d_) if isinstance(old, tuple) else old + d_
                     return old if op.startswith('post') else env.locals[tgt['id']]
                 return U
             v = self.ev(e['e'], env, c)
             if op == '*' and isinstance(v, tuple):
-                arr = self.const_array(v[1])
+                arr = self.array_of(v[1], env)
                 return arr[v[2]] if arr is not None and 0 <= v[2] < len(arr) else U
             if op == '*' or op == '&':
                 return U
@@ -348,7 +384,7 @@ class Machine:
             bv = self.ev(e['b'], env, c)
             iv = self.ev(e['i'], env, c)
             if isinstance(bv, tuple) and iv is not U and not isinstance(iv, tuple):
-                arr = self.const_array(bv[1])
+                arr = self.array_of(bv[1], env)
                 j = bv[2] + iv
                 if arr is not None and 0 <= j < len(arr):
                     v_ = arr[j]
@@ -396,8 +432,63 @@ class Machine:
         cache[key] = ok
         return ok
 
+    def array_of(self, aid, env):
+        """elements behind a pointer value: a constant table, or the bytes (and terminator) of a followed text"""
+        if isinstance(aid, tuple) and aid and aid[0] == 'text':
+            t_ = env.texts.get(aid[1])
+            return None if t_ is None else [b - 256 if b > 127 else b for b in t_] + [0]
+        return self.const_array(aid)
+
+    def text_name(self, e, env):
+        """name of a followed text member (String) the expression designates, if its content is being followed in env"""
+        o = strip_lv(e or {})
+        while o.get('k') in ('paren', 'cast', 'temp'):
+            o = strip_lv(o['e'])
+        if o.get('k') == 'mem' and o.get('f') in env.texts and strip_lv(o.get('b') or {'k': 'this'}).get('k') == 'this':
+            return o['f']
+        return None
+
+    def text_value(self, e, env, c):
+        """bytes of a text operand: a literal, a character value, or a followed text member; None if unknown"""
+        x = strip(e)
+        while x.get('k') in ('paren', 'cast', 'temp') or (x.get('k') == 'construct' and len(x.get('a', [])) == 1):
+            x = strip(x['e'] if x.get('k') != 'construct' else x['a'][0])
+        if x.get('k') == 'str':
+            return tuple(b & 255 for b in x['b'])
+        tn = self.text_name(x, env)
+        if tn is not None:
+            return env.texts[tn]
+        v = self.ev(x, env, c)
+        if isinstance(v, int):
+            return (v & 255,)
+        return None
+
     def ev_call(self, e, env, c):
         short = (e.get('pq') or e.get('fn') or '').split('::')[-1]
+        if env.texts and e.get('obj') is not None:
+            tn = self.text_name(e['obj'], env)
+            if tn is not None:
+                txt = env.texts[tn]
+                if txt is None:
+                    return U
+                if short in ('length', 'size') and not e.get('a'):
+                    return len(txt)
+                if e.get('op') == '[]' and len(e.get('a', [])) == 1:
+                    i = self.ev(e['a'][0], env, c)
+                    if isinstance(i, int) and 0 <= i <= len(txt):
+                        b = txt[i] if i < len(txt) else 0
+                        return b - 256 if b > 127 else b
+                    return U
+                if e.get('op') in ('==', '!=') and len(e.get('a', [])) == 1:
+                    other = self.text_value(e['a'][0], env, c)
+                    if other is None:
+                        return U
+                    return int((txt == other) == (e['op'] == '=='))
+                if short in ('operator bool', 'ok') and not e.get('a'):
+                    return int(len(txt) > 0)
+                if short in ('operator const char *', 'operator char *', 'data', 'str', 'operator*') and not e.get('a'):
+                    return ('ptr', ('text', tn), 0)
+                return U
         # stack queries
         if e.get('obj') is not None:
             sn = self.stack_name(e['obj'])
@@ -704,6 +795,23 @@ class Machine:
                 for a in e.get('a', []):
                     self.ev(a, env, c)
                 return out([env])
+        if env.texts and e.get('k') == 'call' and e.get('obj') is not None:
+            tn = self.text_name(e['obj'], env)
+            if tn is not None:
+                if (e.get('op') in ('<<', '+=') or short in ('append', 'operator<<', 'operator+=')) and len(e.get('a', [])) == 1:
+                    add = self.text_value(e['a'][0], env, c)
+                    env.texts[tn] = None if (add is None or env.texts[tn] is None) else env.texts[tn] + add
+                    return out([env])
+                if (e.get('op') == '=' or short == 'operator=') and len(e.get('a', [])) == 1:
+                    env.texts[tn] = self.text_value(e['a'][0], env, c)
+                    return out([env])
+                if short == 'clear' and not e.get('a'):
+                    env.texts[tn] = ()
+                    return out([env])
+                if 'const' in (e.get('sig') or '').split(')')[-1] or e.get('op') in ('==', '!=', '[]'):
+                    return out([env], self.ev_call(e, env, c))
+                env.texts[tn] = None            # any other member: the content is no longer known
+                return out([env])
         if short in self.d.get('intrinsics', {}):
             res = self.d['intrinsics'][short](self, env, e, c)
             return out(res if res is not None else [env])
@@ -810,10 +918,12 @@ class Machine:
                                 work.append(e2)
         return self
 
-    def run_text(self, text, max_envs=4000):
+    def run_text(self, text, max_envs=4000, on_prefix=None):
         """the configurations the machine can be in after the bytes of `text`, from the initial configuration (every fork on an
         untracked value is followed; push-backs re-dispatch the byte; paths with a violation or a return are dropped)"""
-        envs = {self.initial_env().key(): self.initial_env()}
+        first = self.initial_env()
+        first.texts = dict((n_, ()) for n_ in self.d.get('texts', ()))
+        envs = {first.key(): first}
         stop_when = self.d.get('stop_state')
         for b in text:
             c = b - 256 if b > 127 else b
@@ -841,6 +951,8 @@ class Machine:
                         if len(nxt) > max_envs:
                             raise Stuck('more than %d configurations for one text' % max_envs)
             envs = nxt
+            if on_prefix is not None:
+                on_prefix(len(envs) and list(envs.values()) or [])
         return list(envs.values())
 
     def representatives(self):
